@@ -22,7 +22,7 @@
    (results of completed dequeues).
 
    The hint fields (last_consumed, last_ad_issued, last_ad_consumed, first, per element inheap / generation /
-   prev / next) are PARAMETERS of [dm_init]; [hints_create S] are the values qdqueue_create() writes.        *)
+   prev / next) are ARGUMENTS of [dm_init]; [hints_create S] are the values qdqueue_create() writes.        *)
 From Coq Require Import List NArith Bool Arith.
 From QV Require Import CQueues.Dq.
 Import ListNotations.
